@@ -12,6 +12,7 @@ let () =
              match mode with
              | "sym" -> Driver_sym.run_case toks
              | "exp" -> Driver_exp.run_case toks
+             | "spec" -> Driver_spec.run_case toks
              | "safe" -> Driver_safe.run_case toks
              | "dispatch" -> Driver_safe.run_dispatch toks
              | _ -> "error unknown-mode"
